@@ -84,7 +84,7 @@ CHECKS["C13"] = dict(
         dict(pkg="server", name="C13_textcmd", bound="one text command out of the 27 registered key-value/keyspace/session commands (and an unknown one) with 0..3 arguments, each argument one of: the key, a value, 2 symbolic ASCII bytes (so every two-character option word, number or garbage), EX, NX, MATCH; real TextServerProtocol handler + converter + LockDB on a fresh server", flags=["-witness", "2000"], reach=["end"], allow=["blocked"]),
         dict(pkg="server", name="C13_textcmd2", bound="a first command creating a string / number / plain hold (5 shapes), then any command as in C13_textcmd with 0..2 arguments on the same or a second connection", flags=["-witness", "2000"], reach=["end", "first-done"], allow=["blocked"]),
         dict(pkg="server", name="C13_textlock", bound="LOCK / UNLOCK / PUSH with key and 0..4 further arguments: option word from all 15 recognised (and an unknown one) alternating with a value out of 0, 1..2 symbolic ASCII bytes, UNLOCK, v", flags=["-witness", "2000"], reach=["end"], allow=["blocked"]),
-        dict(pkg="server", name="C13_textseq", bound="every program of 3 well-formed commands out of 14 forms (SET/GET hit/GET miss/LOCK/LOCK with value/UNLOCK/LOCK Timeout 0/DEL/INCR/APPEND/EXISTS/PUSH/TTL) on one text connection, then a command on a second connection", flags=["-witness", "200"], reach=["end"], allow=["blocked"]),
+        dict(pkg="server", name="C13_textseq", bound="every program of 3 well-formed commands out of 17 forms (SET/GET hit/GET miss/LOCK/LOCK with value/UNLOCK/LOCK Timeout 0/DEL/INCR/APPEND/EXISTS/PUSH/TTL/SELECT 1/SELECT 255/KEYS *) on one text connection, then a command on a second connection", flags=["-witness", "200"], reach=["end"], allow=["blocked"]),
         dict(pkg="server", name="C13_textseq4", bound="as C13_textseq with 4 commands", flags=["-witness", "2000"], reach=["end"], allow=["blocked"], thorough_only=True),
         dict(pkg="server", name="C13_textcmd4", bound="as C13_textcmd with 0..4 arguments and the full alphabet (also 1 symbolic byte, PX, COUNT)", flags=["-witness", "20000"], reach=["end"], allow=["blocked"], thorough_only=True),
         dict(pkg="server", name="C13_textcmd2x", bound="as C13_textcmd2 with 0..3 arguments and the full alphabet", flags=["-witness", "20000"], reach=["end", "first-done"], allow=["blocked"], thorough_only=True),
